@@ -29,6 +29,20 @@ PARSERS = {
                       "why": "expat raises ExpatError for ill-formed XML; plistlib itself raises ValueError / "
                              "InvalidFileException for well-formed XML that is not a plist"},
 }
+# Exceptions these parsers raise for malformed input WITHOUT an explicit raise statement a source scan could find (raised
+# by C code, or by an unguarded subscript / attribute access on parser state).  Frozen table: each line was confirmed by a
+# failing input (hunting wave, DESIGN 10.9) and by reading the parser.
+IMPLICIT_RAISES = {
+    "json.load": [("RecursionError", "brackets nested deeper than the interpreter's recursion limit (C scanner recursion; '[' x 100000)"),
+                  ("ValueError", "an integer literal longer than sys.get_int_max_str_digits() ('[' + '1' x 5000): int() raises a plain ValueError"),
+                  ("UnicodeDecodeError", "json.load decodes the bytes it read (detect_encoding + decode)")],
+    "json5.load": [("RecursionError", "pure-Python recursive descent, about 20 frames per nesting level ('[' x 62)")],
+    "plistlib.load": [("IndexError", "_PlistParser.end_key/add_object read self.stack[-1]; a <key> or value outside any container leaves the stack empty"),
+                      ("AttributeError", "_date_from_string calls .groupdict() on the result of a regex match that is None for a malformed <date>")],
+    "xml.etree.ElementTree.parse": [("LookupError", "an unknown encoding name in the XML declaration (pyexpat looks the codec up)"),
+                                    ("ValueError", "a multi-byte encoding such as shift_jis in the XML declaration is refused by pyexpat")],
+    "yaml.load_all": [],
+}
 SAFE_HANDLER_CALLS = {"os.path.basename", "str", "repr", "type", "len"}
 
 
@@ -112,12 +126,39 @@ def find_loader_calls(m, f, depth=0, seen=None):
     return out
 
 
+def project_raises(m, f, depth=0, seen=None):
+    """Explicit `raise <Builtin>(...)` statements in project functions a loader reaches after parsing (tree construction
+    refuses some parsed values: json.build_tree raises ValueError for objects without a node type)."""
+    import builtins
+    seen = seen if seen is not None else set()
+    if f.qual in seen or depth > 3:
+        return []
+    seen.add(f.qual)
+    out = []
+    for n in walk_no_nested(f.node):
+        if isinstance(n, ast.Raise) and isinstance(n.exc, ast.Call) and isinstance(n.exc.func, ast.Name):
+            cls = getattr(builtins, n.exc.func.id, None)
+            if isinstance(cls, type) and issubclass(cls, Exception) and not issubclass(cls, (AssertionError, NotImplementedError, TypeError)):
+                out.append((n.exc.func.id, cls, f"explicit raise in {f.short} ({f.file}:{n.lineno}), reached while building the tree"))
+        if isinstance(n, ast.Call):
+            r = m.resolve_expr(f.module, n.func)
+            if r and r[0] and r[0][0] == "func" and r[0][1] in m.functions:
+                out += project_raises(m, m.functions[r[0][1]], depth + 1, seen)
+    uniq = {}
+    for nm, cls, origin in out:
+        uniq.setdefault(nm, (nm, cls, origin))
+    return list(uniq.values())
+
+
 def raise_set(entry):
     """[(class name, class object, origin)] a parser entry may raise (frozen table + explicit-raise scan)."""
     spec = PARSERS[entry]
     out = []
     for nm in spec.get("frozen", []):
         out.append((nm, import_obj(nm), "frozen table: " + spec["why"]))
+    import builtins
+    for nm, why in IMPLICIT_RAISES.get(entry, []):
+        out.append((nm, getattr(builtins, nm), "implicit (frozen table): " + why))
     if "scan" in spec:
         mods, entries = spec["scan"]
         raised, reached = extlib.explicit_raises(mods, entries)
@@ -254,8 +295,10 @@ def r20ab(ctx):
         if not loaders:
             ctx.inconclusive("R20b", f.file, func, tr, "loader", f"cannot find the parser entry call of {typename}")
             continue
+        internal = project_raises(m, bt)
         for entry, call, lf, text in loaders:
-            rs = raise_set(entry)
+            rs = raise_set(entry) + internal
+            internal = []
             if PARSERS[entry]["reads_text"] and text:
                 rs.append(("UnicodeDecodeError", UnicodeDecodeError,
                            f"the file is opened in text mode in {lf.short} and decoded while {entry} reads it: a "
@@ -344,9 +387,34 @@ def r20c(ctx):
                        f"no diff output precedes it")
 
 
+def r20d(ctx):
+    m = ctx.model
+    ctx.rule("R20d", "the JSON loader is strict: Python's json.load accepts the non-JSON tokens NaN, Infinity and -Infinity unless "
+                     "it is given a parse_constant hook that rejects them; a strict JSON parser (RFC 8259) refuses such files")
+    n = 0
+    for q, info in sorted(m.filetypes().items()):
+        if info["name"] != "json":
+            continue
+        bt = m.method(q, "build_tree")
+        for nm, call, lf, text in find_loader_calls(m, bt):
+            if nm != "json.load":
+                continue
+            n += 1
+            if any(k.arg == "parse_constant" for k in call.keywords):
+                ctx.proved("R20d", lf.file, lf.short, call, "json.load parse_constant", "a parse_constant hook is installed")
+            else:
+                ctx.violation("R20d", lf.file, lf.short, call, "json.load parse_constant",
+                              f"`{norm(call, 50)}` uses the default parse_constant: `[Infinity]`, `{{\"a\": NaN}}` and `[-Infinity, 2]` are "
+                              f"not valid JSON, yet they are loaded as floats and diffed without any error message (exit 0 when both "
+                              f"files are the same malformed text)")
+    ctx.floor("R20d", n, 1, "json.load calls of the JSON file type")
+
+
 def run(ctx):
     r20ab(ctx)
     r20c(ctx)
-    ctx.assume("which byte strings a third-party parser rejects, and implicit exceptions inside parsers (AttributeError, "
-               "RecursionError, MemoryError) are not decided")
+    r20d(ctx)
+    ctx.assume("which byte strings a third-party parser rejects is not decided; implicit exceptions inside parsers are covered "
+               "only as far as the frozen IMPLICIT_RAISES table goes (each line confirmed by a failing input); MemoryError, "
+               "and libyaml's C-stack overflow on tens of thousands of nested brackets (a SIGSEGV, not an exception), are not")
     ctx.assume("frozen raise-set table for C-implemented parsers (expat, libyaml, json scanner) - DESIGN.md E8")
